@@ -315,6 +315,10 @@ def gen(tier, seed):
             add("nq_%s_%d" % (tag, bc), "c15-neighbor-query", "neighbor_query(%d, %d, %d, %d, i)" % (w, h, d, bc), ["pre: 0 <= i < %d" % n],
                 "get_neighbors, as a set, equals the specification relation (%dx%dx%d, boundary combination %d)" % (w, h, d, bc), "i: int", timeout=180,
                 viol="get_neighbors disagrees with the neighbour relation between distinct cells")
+    for (w, h, d) in ((3, 1, 1), (2, 2, 1), (1, 3, 2)):
+        add("bc_switch_%d%d%d" % (w, h, d), "c15-boundary-switch", "bc_switch(%d, %d, %d, bc1, bc2, i)" % (w, h, d), ["pre: 0 <= bc1 <= 7 and 0 <= bc2 <= 7 and 0 <= i < %d" % (w * h * d)],
+            "the neighbour query and the pairwise test follow the CURRENT boundary setting: after a query under one setting the grid (or a copy of it) is switched to another with set_boundary_conditions and must answer like a grid built with the new setting (%dx%dx%d, all 8 x 8 settings, every first-queried cell)" % (w, h, d),
+            "bc1: int, bc2: int, i: int", viol="after the boundary conditions of a grid are changed, a neighbour query still answers for the old setting")
     add("abi_boundary", "c15-abi-boundary", "abi_boundary(w, h, d, bc)", ["pre: 1 <= w <= 2 and 1 <= h <= 2 and 1 <= d <= 2 and 0 <= bc <= 7"],
         "LibRDEngine hands the native engine the grid's sizes in the order (w, h, d) and each axis' OWN boundary condition (all 8 combinations, sizes 1..2 per axis, deterministic and stochastic engines)",
         "w: int, h: int, d: int, bc: int", viol="the boundary condition or size of one axis reaches the native engine under another axis")
